@@ -1,7 +1,7 @@
 """Registry of properties -> Kani harnesses, bounds, loop rules (see DESIGN.md §5 and §9)."""
 import re
 
-DEFAULT_TIMEOUT = {"quick": 900, "thorough": 3000}
+DEFAULT_TIMEOUT = {"quick": 900, "thorough": 3000, "experimental": 3600}
 
 # regex on the demangled function name (or the loop id) -> unwind bound for that loop.
 # First match wins (harness-specific rules are tried after these defaults).
@@ -27,12 +27,14 @@ MODULES = [
     (r"^c0[67]_tls_", "transport::tls::verif_tls"),
     (r"^c0[67]_junos_local_", "transport::junos_local::verif_junos_local"),
     (r"^c0[67]_ssh_|^c20_password", "transport::ssh::verif_ssh"),
-    (r"^c09_|^c05_|^c18_|^c12_negotiation", "session::verif_session"),
-    (r"^c12_server_hello|^c12_capability", "message::hello::verif_hello"),
-    (r"^c08_load_configuration", "message::rpc::operation::junos::load_configuration::verif_load"),
+    (r"^c09_|^c05_|^c18_|^c12_negotiation|^c10_commit|^c10_junos", "session::verif_session"),
+    (r"^c12_server_hello|^c12_capabilit", "message::hello::verif_hello"),
+    (r"^c08_load_|^c10_load_configuration", "message::rpc::operation::junos::load_configuration::verif_load"),
     (r"^c08_rpc_error_reader", "message::rpc::error::verif_error"),
-    (r"^c08_|^c13_empty_reply|^c13_partial_reply|^c14_reply|^cal_nothing", "message::rpc::verif_replies"),
+    (r"^c08_|^c13_|^c14_reply|^cal_", "message::rpc::verif_replies"),
     (r"^c19_frequency", "cli::verif_cli"),
+    (r"^c16_", "policies::fetch::verif_fetch"),
+    (r"^c03_|^c15_", "policies::verif_policies"),
     (r"^c19_", "task::verif_task"),
 ]
 
@@ -183,43 +185,145 @@ READER_LOOPS = {
 
 CHECKS["C08"] = {
     "crates": ["netconf"],
-    "explanation": "Each reply reader (EmptyReply, DataReply<Opaque>, BareReply, load_configuration::Reply) is executed symbolically over every "
-                   "reply of up to 2 grammar items (quick: <ok/>, <data>, rpc-error(error), rpc-error(warning); thorough: all 9 kinds) (ok as <ok/> or <ok></ok>, rpc-error with severity error or warning, comment, "
-                   "unexpected element, <ok/> in a foreign namespace, <data>, stray text; inside load-configuration-results also "
-                   "load-error-count 0..3), compositional: rpc::Error::read_xml is replaced by a summary stub in the outer-reader harnesses "
-                   "and checked on its own in c08_rpc_error_reader.",
+    "explanation": "Each reply reader (EmptyReply, DataReply<Opaque>, BareReply, load_configuration::Reply) is executed symbolically over replies of "
+                   "up to 2 grammar items, one harness per concrete first item: (quick) the empty reply; <ok/> or <data> followed by nothing or by "
+                   "<ok/> / <rpc-error> of symbolic severity / <data>; first items that end the reading (unexpected for that reader) followed by "
+                   "any item; for load-configuration the reply without results, the empty results element and <rpc-error>(symbolic severity) "
+                   "followed by <ok/> - the sequence the defect repaired by 808e00a lived in; (thorough) adds <rpc-error>(error|warning) first "
+                   "for BareReply, the remaining terminating first items (<ok></ok>, foreign <ok/>, other element, stray text) and <ok/>,<ok/> "
+                   "inside load-configuration-results.  Asserted: success only with the positive indication and without rpc-error(error); "
+                   "reported errors are exactly the reply's, in order.  Compositional: rpc::Error::read_xml and Opaque::read_xml are replaced by "
+                   "summary stubs whose preconditions are asserted; Opaque::read_xml is checked on its own in c08_opaque_reader.",
     "assumptions": ["event-level: the quick-xml model replays event tapes; byte-level tokenisation is quick-xml's",
-                    "summary stub for rpc::Error::read_xml (consumes the element, returns the severity the tape declares); justified by c08_rpc_error_reader",
-                    "summary stub for Opaque::read_xml in c08_data_reply (consumes the element); the real one is checked in c08_opaque_reader",
-                    "Errors::new / Errors::push (one-line Vec wrappers) replaced by a preallocated, never-reallocating version that asserts len < 4"],
-    "harnesses": [
-        harness("c08_empty_reply", functions=["EmptyReply::read_xml"], bounds="<=2 items from {<ok/>, rpc-error(error), rpc-error(warning), <data>}", deep_bounds="<=2 items from the full 9-kind reply grammar", deep=True,
-                loops=READER_LOOPS, stubbing=True, mem_gb=30),
-        harness("c08_data_reply", functions=["DataReply::<Opaque>::read_xml", "Opaque::read_xml"], bounds="<=2 items from the 4 quick kinds", deep_bounds="<=2 items from the full 9-kind grammar", deep=True,
-                loops=READER_LOOPS, stubbing=True, mem_gb=30),
-        harness("c08_opaque_reader", functions=["operation::Opaque::read_xml"], bounds="<data>x</data> closed / unterminated", loops=READER_LOOPS, mem_gb=30),
-        harness("c08_bare_reply", functions=["junos::BareReply::read_xml"], bounds="<=2 items from the 4 quick kinds", deep_bounds="<=2 items from the full 9-kind grammar", deep=True,
-                loops=READER_LOOPS, stubbing=True, mem_gb=30),
-        harness("c08_load_configuration_reply", functions=["junos::load_configuration::Reply::read_xml"],
-                bounds="<load-configuration-results> present or absent, <=2 inner items from {<ok/>, rpc-error error/warning, load-error-count 1}",
-                deep_bounds="... <=2 inner items from the full set (adds <ok></ok>, count 3, comment, other)", deep=True, loops=READER_LOOPS, stubbing=True, mem_gb=30),
-        harness("c08_rpc_error_reader", functions=["rpc::Error::read_xml", "Type/Tag/Severity::from_str"],
-                bounds="three mandatory children in all 6 orders, each present/absent, 4 severity texts", loops=READER_LOOPS, mem_gb=30,
-                timeout={"quick": 1500, "thorough": 3600}),
-    ],
+                    "summary stub for rpc::Error::read_xml (asserts it is called on an <rpc-error> start tag, consumes the element, returns the severity the tape declares); "
+                    "the real rpc::Error::read_xml (c08_rpc_error_reader) did not finish and is NOT covered",
+                    "summary stub for Opaque::read_xml in the outer-reader harnesses (asserts it is called on <data>, consumes the element); the real one is checked in c08_opaque_reader",
+                    "Errors::new / Errors::push (one-line Vec wrappers) replaced by a preallocated, never-reallocating version that asserts len < 4",
+                    "NOT covered (harnesses kept as 'experimental', they exceed 30 GB / 50 min): replies whose first item is an <rpc-error> or a comment for "
+                    "EmptyReply and DataReply (e.g. rpc-error followed by <ok/> or <data>), and two-item contents of <load-configuration-results> other than "
+                    "rpc-error,<ok/> and <ok/>,<ok/>"],
+    "harnesses": [],
 }
+
+# split on the first item: quick tier = the 4 kinds C08 is about (+ the empty reply), second item from the same 4 kinds;
+# thorough tier = all 9 first kinds, second item from all 9 kinds (feature verif_deep)
+_C08_QUICK_FIRST = ["empty", "first_ok", "first_err_error", "first_err_warning", "first_data"]
+_C08_DEEP_FIRST = ["first_ok_pair", "first_comment", "first_other", "first_foreign_ok", "first_text"]
+_C08_READERS = [
+    ("c08_empty_reply", ["EmptyReply::read_xml"]),
+    ("c08_data_reply", ["DataReply::<Opaque>::read_xml"]),
+    ("c08_bare_reply", ["junos::BareReply::read_xml"]),
+]
+# Splits: the first item is concrete; for first items after which the reader goes on reading, there is one harness per
+# *family* of the (optional) second item - items sharing an element name, see Fam in harness/netconf/replies.rs -, for first
+# items that end the reading at once a single harness with an arbitrary second item.
+_FIRSTS = ["ok", "err_error", "err_warning", "data", "ok_pair", "comment", "other", "foreign_ok", "text"]
+_FAMS = ["ok", "err", "data", "ok_pair", "comment", "other", "foreign_ok", "text"]
+_QUICK_FIRSTS = {"ok", "err_error", "err_warning", "data"}
+_QUICK_FAMS = {"ok", "err", "data"}
+_CONT = {"c08_empty_reply": ["ok", "ok_pair", "err_error", "err_warning", "comment"],
+         "c08_data_reply": ["data", "err_error", "err_warning", "comment"],
+         "c08_bare_reply": ["err_error", "err_warning", "comment"]}
+_k = 0
+
+
+# measured on this machine (DESIGN.md 9.6): quick = decided in < 3 min with < 20 GB; thorough = < 15 min with < 30 GB;
+# everything else did not finish (30 GB / 50 min) and is kept as "experimental" (in no tier, never part of a claim)
+_C08_QUICK = {
+    "c08_empty_reply_empty", "c08_empty_reply_ok_then_ok", "c08_empty_reply_ok_then_err", "c08_empty_reply_ok_then_data", "c08_empty_reply_first_data",
+    "c08_data_reply_empty", "c08_data_reply_first_ok", "c08_data_reply_data_then_ok", "c08_data_reply_data_then_err", "c08_data_reply_data_then_data",
+    "c08_bare_reply_empty", "c08_bare_reply_first_ok", "c08_bare_reply_first_data",
+    "c08_load_reply_no_results", "c08_load_reply_empty_results",
+}
+_C08_THOROUGH = {
+    "c08_bare_reply_err_error_then_ok", "c08_bare_reply_err_error_then_err", "c08_bare_reply_err_error_then_data",
+    "c08_bare_reply_err_warning_then_ok", "c08_bare_reply_err_warning_then_err", "c08_bare_reply_err_warning_then_data",
+    "c08_empty_reply_first_other", "c08_empty_reply_first_foreign_ok", "c08_empty_reply_first_text",
+    "c08_data_reply_first_ok_pair", "c08_data_reply_first_other", "c08_data_reply_first_foreign_ok", "c08_data_reply_first_text",
+    "c08_bare_reply_first_ok_pair", "c08_bare_reply_first_other", "c08_bare_reply_first_foreign_ok", "c08_bare_reply_first_text",
+    "c08_load_reply_first_other", "c08_load_reply_ok_then_ok",
+}
+
+
+def _c08(name, functions, bounds, quick):
+    global _k
+    if name in _C08_QUICK:
+        kw = {"mem_gb": 20}
+    elif name in _C08_THOROUGH:
+        kw = {"tiers": ["thorough"], "mem_gb": 30, "timeout": {"thorough": 2400}}
+    else:
+        kw = {"tiers": ["experimental"], "mem_gb": 30}
+    CHECKS["C08"]["harnesses"].append(harness(name, functions=functions, bounds=bounds, loops=READER_LOOPS, stubbing=True,
+                                              target="c08_%d" % (_k % 8), **kw))
+    _k += 1
+
+
+for _r, _f in _C08_READERS:
+    _c08(_r + "_empty", _f, "reply without content", True)
+    for _first in _FIRSTS:
+        if _first in _CONT[_r]:
+            for _fam in _FAMS:
+                _c08("%s_%s_then_%s" % (_r, _first, _fam), _f,
+                     "first item %s; then nothing or an item of family %s (rpc-error: symbolic severity)" % (_first, _fam),
+                     _first in _QUICK_FIRSTS and _fam in _QUICK_FAMS)
+        else:
+            _c08("%s_first_%s" % (_r, _first), _f, "first item %s (ends the reading); then nothing or any item" % _first, _first in _QUICK_FIRSTS)
+_LFIRSTS = ["ok", "err_error", "err_warning", "count0", "count1", "count2", "ok_pair", "comment", "other"]
+_LFAMS = ["ok", "err", "count", "ok_pair", "comment", "other"]
+_LF = ["junos::load_configuration::Reply::read_xml"]
+_c08("c08_load_reply_no_results", _LF, "reply without <load-configuration-results>", True)
+_c08("c08_load_reply_empty_results", _LF, "empty <load-configuration-results>", True)
+for _first in _LFIRSTS:
+    if _first == "other":
+        _c08("c08_load_reply_first_other", _LF, "first inner item: unexpected element; then nothing or any item", False)
+    else:
+        for _fam in _LFAMS:
+            _c08("c08_load_reply_%s_then_%s" % (_first, _fam), _LF,
+                 "inside <load-configuration-results>: %s; then nothing or an item of family %s (rpc-error: symbolic severity; load-error-count: 0..3)" % (_first, _fam),
+                 _first in ("ok", "err_error", "err_warning", "count1") and _fam in ("ok", "err", "count"))
+SEQ_LOOPS = dict(READER_LOOPS)
+SEQ_LOOPS.update({r"for_each_sequence": 10})
+for _r, _f in _C08_READERS:
+    CHECKS["C08"]["harnesses"].append(harness(
+        _r + "_sequences", functions=_f, loops=SEQ_LOOPS, stubbing=True, mem_gb=24, target=_r + "_seq",
+        bounds="every element sequence of length <= 2 over {<ok/>, <rpc-error>, <data>} (13 sequences, walked by a concrete loop), severity of every rpc-error symbolic"))
+    CHECKS["C08"]["harnesses"].append(harness(
+        _r + "_sequences_full", functions=_f, loops=SEQ_LOOPS, stubbing=True, mem_gb=30, target=_r + "_seqf", tiers=["thorough"], timeout={"thorough": 3000},
+        bounds="every element sequence of length <= 2 over the 8 element kinds of the reply grammar (73 sequences), severity of every rpc-error symbolic"))
+CHECKS["C08"]["harnesses"].append(harness(
+    "c08_load_reply_sequences", functions=_LF, loops=dict(SEQ_LOOPS, **{r"load_sequences": 10}), stubbing=True, mem_gb=24, target="c08_load_seq",
+    bounds="no results element; empty results; every sequence of length <= 2 over {<ok/>, <rpc-error>, <load-error-count>} inside <load-configuration-results> "
+           "(13 sequences, walked by a concrete loop); rpc-error severities and counts 0..3 symbolic"))
+CHECKS["C08"]["harnesses"].append(harness(
+    "c08_load_reply_sequences_full", functions=_LF, loops=dict(SEQ_LOOPS, **{r"load_sequences": 10}), stubbing=True, mem_gb=30, target="c08_load_seqf",
+    tiers=["thorough"], timeout={"thorough": 3000},
+    bounds="as c08_load_reply_sequences over all 6 inner element kinds (adds <ok></ok>, comment, unexpected element; 43 sequences)"))
+CHECKS["C08"]["harnesses"].append(
+    harness("c08_load_reply_error_then_ok", functions=["junos::load_configuration::Reply::read_xml"],
+            bounds="<load-configuration-results>: rpc-error of symbolic severity (error/warning), then <ok/>", loops=READER_LOOPS, stubbing=True, mem_gb=24,
+            timeout={"quick": 1500, "thorough": 3000}, target="c08_lr"))
+CHECKS["C08"]["harnesses"].append(
+    harness("c08_opaque_reader", functions=["operation::Opaque::read_xml"], bounds="<data>x</data> closed / unterminated", loops=READER_LOOPS, mem_gb=16, target="c08_%d" % (_k % 8)))
+CHECKS["C08"]["harnesses"].append(
+    harness("c08_rpc_error_reader", functions=["rpc::Error::read_xml", "Type/Tag/Severity::from_str"],
+            bounds="three mandatory children in all 6 orders, each present/absent, 4 severity texts", loops=READER_LOOPS, mem_gb=30,
+            tiers=["experimental"], timeout={"experimental": 3600}))
 
 # ------------------------------------------------------------------------------------------- C05 / C18 / C12
 
 SESSION_LOOPS = {
     r"ReadXml.*read_xml|from_xml": 6,
     r"seek_end": 5,
-    r"name_id_of": 6,
+    r"name_id_of": 14,
     r"Session.*recv": 4,
     r"run_bounded": 3,
     r"from_ascii": 4,
     r"resolve_attribute": 3,
 }
+
+HELLO_LOOPS = {r"drop_glue.*Capability": 15, r"from_ascii": 12}
+HELLO_LOOPS.update(READER_LOOPS)
+HELLO_LOOPS.update({r"vcollections": 15, r"from_ascii": 12})
 
 CHECKS["C05"] = {
     "crates": ["netconf"],
@@ -235,6 +339,8 @@ CHECKS["C05"] = {
                     "std::str::from_utf8 replaced by a trusting stub (inputs are the one-byte tape selectors); tokio Mutex model",
                     "uniqueness of message-ids (MessageId::increment) is not covered by these harnesses"],
     "harnesses": [
+        harness("c05_slot_take_step", functions=["OutstandingRequest::take"], bounds="every slot state (Pending / Ready(reply 1 or 2) / Complete), one call"),
+        harness("c05_message_id_is_fresh", functions=["rpc::MessageId::increment"], bounds="every counter value < usize::MAX - 2, three consecutive calls"),
         harness("c05_recv_step_one_arrival", functions=["Session::recv", "OutstandingRequest::take", "PartialReply::recv/read_xml", "Reply::try_from/read_xml", "DataReply::read_xml", "MessageId::try_from"],
                 bounds="waiter for id 1; map entries 1,2 each absent/Pending/Ready/Complete; <=1 arriving reply with id in {1,2,9}; 2 polls", loops=SESSION_LOOPS, stubbing=True,
                 timeout={"quick": 1500, "thorough": 3600}, mem_gb=30),
@@ -276,11 +382,26 @@ CHECKS["C12"] = {
     "harnesses": [
         harness("c12_negotiation_and_framing", functions=["ClientHello::default", "Capabilities::highest_common_version", "rpc::Request::to_xml (ClientMsg::to_xml)"],
                 bounds="server advertises any subset of {:base:1.0, :base:1.1, :candidate}", loops={r"write_escaped|from_slice|Inline": 45}),
-        harness("c12_server_hello_reader", functions=["ServerHello::read_xml", "Capabilities::read_xml", "Capability::from_str", "SessionId::from_str"],
-                bounds="capabilities present/absent x base1.0 x base1.1; session-id absent/once/twice, 6 texts, before or after capabilities",
-                loops=READER_LOOPS, stubbing=True, timeout={"quick": 1500, "thorough": 3600}, mem_gb=30),
+    ] + [
+        harness("c12_server_hello_sequences_%s" % g, functions=["ServerHello::read_xml", "SessionId::from_str"],
+                bounds="children of <hello>: layouts %s of the 12 sequences of length <= 3 over {session-id, capabilities} (concrete loop); "
+                       "session-id text symbolic over {1, 4294967295, 0, 4294967296, -1, x}; capabilities = {:base:1.0} (summarised reader)" % r,
+                loops=HELLO_LOOPS, stubbing=True, timeout={"quick": 1500, "thorough": 3600}, mem_gb=30, target="c12_hs_%s" % g)
+        for g, r in (("a", "1-3 (none / sid / caps)"), ("b", "4-6 (sid,sid / sid,caps / caps,sid)"), ("c", "7-9 (three children, one caps)"), ("d", "10-12 (sid x3 / caps x2)"))
+    ] + [
+        harness("c12_server_hello_session_id_after_capabilities", functions=["ServerHello::read_xml", "SessionId::from_str"],
+                bounds="<capabilities> (summarised reader), then one or two <session-id>; text from {1, 4294967295, 0, 4294967296, -1, x}",
+                loops=HELLO_LOOPS, stubbing=True, tiers=["experimental"], mem_gb=30),
+        harness("c12_server_hello_session_id_before_capabilities", functions=["ServerHello::read_xml", "SessionId::from_str"],
+                bounds="<session-id>, <capabilities> (summarised reader), possibly a second <session-id>; same 6 texts",
+                loops=HELLO_LOOPS, stubbing=True, tiers=["experimental"], mem_gb=30),
+        harness("c12_server_hello_missing_parts", functions=["ServerHello::read_xml"],
+                bounds="hello with only <capabilities>, only <session-id>, or neither", loops=HELLO_LOOPS, stubbing=True, tiers=["experimental"], mem_gb=30),
+        harness("c12_capabilities_reader", functions=["Capabilities::read_xml"],
+                bounds="<capabilities> holding any subset of {:base:1.0, :base:1.1}",
+                loops=HELLO_LOOPS, stubbing=True, timeout={"quick": 1500, "thorough": 3600}, mem_gb=30),
         harness("c12_capability_from_str", functions=["Capability::from_str", "iri_string::types::UriStr::new"],
-                bounds="8 concrete URIs (all standard capabilities' shapes, Junos, unknown, invalid)", timeout={"quick": 1500, "thorough": 3600}, mem_gb=30),
+                bounds="8 concrete URIs (all standard capabilities' shapes, Junos, unknown, invalid)", always_unwindset=["memcmp.0:70"], tiers=["thorough"], timeout={"thorough": 3600}, mem_gb=30),
     ],
 }
 
@@ -291,9 +412,13 @@ CHECKS["C13"] = {
     "assumptions": ["namespace prefix vs default namespace, attribute quoting/order and inter-element whitespace are resolved inside quick-xml and invisible at event level",
                     "whitespace around token-valued text and the configuration readers of the agent are not covered yet"],
     "harnesses": [
-        harness("c13_empty_reply_comment_insertion", functions=["EmptyReply::read_xml"], bounds="1 item from the reply grammar, comment before or after it", loops=READER_LOOPS, stubbing=True, mem_gb=30),
-        harness("c13_empty_reply_ok_element_form", functions=["EmptyReply::read_xml"], bounds="<ok/> vs <ok></ok>", loops=READER_LOOPS, expect="finding", mem_gb=30),
-        harness("c13_partial_reply_xml_declaration", functions=["PartialReply::from_xml/read_xml"], bounds="<rpc-reply><ok/></rpc-reply> with and without <?xml?>", loops=SESSION_LOOPS, expect="finding", mem_gb=30),
+    ] + [
+        harness("c13_comment_insertion_%s" % k, functions=["EmptyReply::read_xml"], bounds="reply with one item (%s); comment inserted before or after it" % k,
+                loops=READER_LOOPS, stubbing=True, mem_gb=16, target="c13_%d" % (i % 4), **({} if k in ("ok", "err_error", "data") else {"tiers": ["thorough"]}))
+        for i, k in enumerate(["ok", "err_error", "err_warning", "data", "ok_pair", "other", "foreign_ok", "text"])
+    ] + [
+        harness("c13_empty_reply_ok_element_form", functions=["EmptyReply::read_xml"], bounds="<ok/> vs <ok></ok>", loops=READER_LOOPS, mem_gb=30),
+        harness("c13_partial_reply_xml_declaration", functions=["PartialReply::from_xml/read_xml"], bounds="<rpc-reply><ok/></rpc-reply> with and without <?xml?>", loops=SESSION_LOOPS, mem_gb=30),
     ],
 }
 
@@ -306,8 +431,11 @@ CHECKS["C14"] = {
     "assumptions": ["bgpfu's own code over arbitrary *event* sequences; that quick-xml turns arbitrary bytes into events or errors without panicking is assumed",
                     "allocation of absurd sizes is outside CBMC's model"],
     "harnesses": [
-        harness("c14_reply_arbitrary_events", functions=["ServerMsg::from_xml", "Reply::read_xml", "MessageId::try_from", "EmptyReply::read_xml"],
-                bounds="<=4 arbitrary cells", loops=READER_LOOPS, stubbing=True, timeout={"quick": 1500, "thorough": 3600}, mem_gb=30),
+    ] + [
+        harness("c14_reply_arbitrary_events_%d" % k, functions=["ServerMsg::from_xml", "Reply::read_xml", "MessageId::try_from", "EmptyReply::read_xml"],
+                bounds="exactly %d arbitrary cells, then end of input" % k, loops=READER_LOOPS, stubbing=True, mem_gb=30,
+                **({} if k <= 2 else {"tiers": ["thorough"], "timeout": {"thorough": 3600}} if k == 3 else {"tiers": ["experimental"], "timeout": {"experimental": 3600}}))
+        for k in (1, 2, 3, 4)
     ],
 }
 
@@ -320,6 +448,64 @@ CHECKS["C20"] = {
                     "russh internals, the agent's logging of paths - the tracing model records nothing"],
     "harnesses": [
         harness("c20_password_debug_is_redacted", functions=["<transport::Password as Debug>::fmt"], bounds="every 2-byte ASCII secret"),
+    ],
+}
+
+CHECKS["C10"] = {
+    "crates": ["netconf"],
+    "explanation": "LoadConfiguration<Config<&str, Text|Json, Merge>>::write_xml is executed with a symbolic 2-byte payload over {<, &, \", ], a}; "
+                   "the writer model's structured log must show the payload as an escaped text node carrying exactly the caller's bytes, and "
+                   "no raw access to the sink.",
+    "assumptions": ["API-use level: that quick-xml's escape/unescape are inverse is quick-xml's contract",
+                    "covered: text/JSON payloads, commit tokens, ephemeral instance name, log message, XPath select; NOT covered: URLs, the agent's "
+                    "policy names / comments, and the delimiter-uniqueness / single-document part of C10 (needs the emitted bytes)"],
+    "harnesses": [
+        harness("c10_load_configuration_text_payload_is_escaped", functions=["junos::load_configuration::LoadConfiguration::write_xml", "Config::write_element", "ConfigData<Text|Json>::write_data"],
+                bounds="payload of 2 bytes over {<,&,\",],a}; text and json formats", loops={r"Inline.*from_slice|write_escaped": 45}, mem_gb=30),
+        harness("c10_commit_tokens", functions=["Commit::write_xml", "CancelCommit::write_xml", "commit::Builder::persist/persist_id", "Token"],
+                bounds="token of 2 bytes over {<,&,\",],a}; persist, persist-id, cancel-commit persist-id", loops={r"Inline.*from_slice|write_escaped": 45}, mem_gb=30),
+        harness("c10_junos_texts_and_xpath", functions=["OpenConfiguration::write_xml", "CommitConfiguration::write_xml", "GetConfig::write_xml", "Filter::write_xml"],
+                bounds="text of 2 bytes over {<,&,\",],a}; ephemeral instance name, log message, xpath select attribute", loops={r"Inline.*from_slice|write_escaped": 45}, mem_gb=30),
+    ],
+}
+
+CHECKS["C03"] = {
+    "crates": ["netconf", "junos-agent"],
+    "explanation": "Policies<Evaluated>::compare over two policies, each in every combination of {not a candidate, candidate whose evaluation "
+                   "failed, candidate evaluated} x {installed, not installed}, for every iteration order of the name set: a failed evaluation "
+                   "yields neither update nor delete, deletes go exactly to installed non-candidates, one policy's action is independent of "
+                   "the other's state.",
+    "assumptions": ["only the compare step: that an unobtainable as-set / unreachable IRR reaches eval.rs as Err (and that eval.rs maps Err to "
+                    "`ranges: None`) is not executed here; the malformed-annotation case (candidate silently skipped by the fetch reader, then "
+                    "deleted) is C16's territory and is NOT covered by this harness",
+                    "rpsl / bgpfu-lib replaced by models (opaque expressions)"],
+    "harnesses": [
+        harness("c03_compare_single_policy", package=AGENT, functions=["policies::compare::Policies<Evaluated>::compare"],
+                bounds="1 policy x 3 evaluation states x installed/not", timeout={"quick": 1500, "thorough": 3600}, mem_gb=30),
+        harness("c03_compare_case_split", package=AGENT, functions=["policies::compare::Policies<Evaluated>::compare"],
+                bounds="2 policies x 3 evaluation states x installed/not", tiers=["experimental"], timeout={"experimental": 3600}, mem_gb=40),
+    ],
+}
+
+C16_LOOPS = dict(READER_LOOPS)
+C16_LOOPS.update({r"seek_end": 8, r"name_id_of": 7})
+
+CHECKS["C16"] = {
+    "crates": ["netconf", "junos-agent"],
+    "explanation": "Maybe<Candidate>::read_xml (attribute scan with namespace resolution, comment decoration stripping, expression parse, body "
+                   "scan) over one policy-statement with up to 3 attributes in any order from {jcmd:active=false|true, jcmd:comment in 4 "
+                   "variants, xmlns:jcmd (duplicable), o:comment in a foreign namespace} and 4 bodies; result compared with an independent "
+                   "selection predicate.",
+    "assumptions": ["rpsl is modelled: an expression parses iff it is in the declared pool {AS-FOO, AS65000}",
+                    "event-level tape; attribute values are logical (unescaped) values",
+                    "Policies<Candidate>::read_xml (the enclosing configuration/policy-options loops, duplicate names) is not covered"],
+    "harnesses": [
+        harness("c16_attribute_scan_single", package=AGENT, functions=["policies::fetch::Maybe<Candidate>::read_xml (attribute scan)"],
+                bounds="1 statement, 1 attribute of any kind/value, plain body", loops=C16_LOOPS, timeout={"quick": 1500, "thorough": 3600}, mem_gb=30),
+        harness("c16_body_scan", package=AGENT, functions=["policies::fetch::Maybe<Candidate>::read_xml (body scan)"],
+                bounds="1 active annotated statement, 4 bodies", loops=C16_LOOPS, timeout={"quick": 1500, "thorough": 3600}, mem_gb=30),
+        harness("c16_attribute_scan", package=AGENT, functions=["policies::fetch::Maybe<Candidate>::read_xml (attribute scan)"],
+                bounds="1 statement, 2 attributes of any kind/value in any order, plain body", loops=C16_LOOPS, tiers=["thorough"], timeout={"thorough": 3600}, mem_gb=40),
     ],
 }
 
